@@ -193,7 +193,7 @@ func TestC30(t *testing.T) {
 	defer rec.Flush(t)
 	rec.Assume("all segments are available locally (no remote fetch); the path database holds one copy per hop sequence, the newest", "revocation cache: in-memory implementation")
 	rec.Require("lookup_local", "lookup_wildcard_local_isd", "lookup_wildcard_remote_isd", "lookup_core_dst", "lookup_noncore_dst", "src_core", "src_noncore", "revocation_active", "revocation_expired", "revocation_superseded",
-		"path_suppressed_by_revocation", "path_suppressed_by_expiry", "slow_fetch", "older_revocation_after_newer", "paths_returned", "single_core_isd", "multi_core_isd")
+		"path_suppressed_by_revocation", "path_suppressed_by_expiry", "slow_fetch", "fetch_crosses_an_expiry", "older_revocation_after_newer", "paths_returned", "single_core_isd", "multi_core_isd")
 	rapid.Check(t, func(rt *rapid.T) { bubbleCheck(t, rt, func(fatalf func(string, ...any)) { c30Case(rt, rec, fatalf) }) })
 }
 
@@ -362,6 +362,19 @@ func c30Case(rt *rapid.T, rec *evid.Rec, fatalf func(string, ...any)) {
 			if rapid.IntRange(0, 3).Draw(rt, "slowFetch") == 0 {
 				fetchDelay = time.Duration(rapid.OneOf(rapid.IntRange(1, 30), rapid.IntRange(30, 1200)).Draw(rt, "fetchSeconds")) * time.Second
 				labels["slow_fetch"] = true
+				// half of the slow fetches are aimed: they end shortly after the next segment expiry
+				if rapid.Bool().Draw(rt, "fetchCrossesAnExpiry") {
+					var next time.Time
+					for _, sg := range append(append([]*seg.PathSegment{}, downsAll...), coresAll...) {
+						if e := sg.MinExpiry(); e.After(time.Now()) && (next.IsZero() || e.Before(next)) {
+							next = e
+						}
+					}
+					if !next.IsZero() {
+						fetchDelay = time.Until(next).Truncate(time.Second) + time.Duration(rapid.IntRange(1, 30).Draw(rt, "afterExpiry"))*time.Second
+						labels["fetch_crosses_an_expiry"] = true
+					}
+				}
 			}
 			// the paths are judged at the moment they are handed out
 			now := time.Now().Add(fetchDelay)
